@@ -14,7 +14,13 @@ pub fn gen_valid(seed: u64, tier: Tier) -> MuxScenario {
     if tier == Tier::Thorough {
         o.long_ops = 4000;
     }
-    gen_mux(&mut r, &o)
+    let mut sc = gen_mux(&mut r, &o);
+    // a rejected add_track in front of an accepted one (a rejected call of any kind must leave
+    // no trace: ids stay 1..n in the order added)
+    if r.chance(1, 12) {
+        inject_rejected_add_track(&mut sc, &mut r);
+    }
+    sc
 }
 
 impl Prop for C01 {
